@@ -526,3 +526,36 @@ def c05_7(R):
         R.ok("first_seq_nr", fs.name, "empty => None, else Some(snd_una)")
     else:
         R.fail([fs.name, "shape"], "first_seq_nr is no longer `None if empty else Some(snd_una)`", where=fs.where(), instance="first_seq_nr")
+
+
+@rule("C05.9", ["C05"], ["E2", "E3"], "the timeout path does not carry never-sent payload past the peer's window",
+      "The RTO branch of send_tx_queue transmits the first undelivered segment. A segment can be queued without ever having been transmitted (segmented within the window of the moment, "
+      "held back by cwnd or by a window that shrank since): sending it from the timeout path is a first transmission, so that path must either be restricted to segments sent before "
+      "(a test of seq_nr against last_sent_seq_nr, or a restricting iterator adapter) or consult last_remote_window. Otherwise new payload goes out after a zero window.")
+def c05_9(R):
+    stq, sites = send_sites(R)
+    rto = []
+    for s in sites:
+        conds = [describe_cond(stq, t, lab) for t, tgt, lab in controlling_edges(stq, s["call"].bb)]
+        if any(c == "call:Timer::expired=true" for c in conds):
+            rto.append((s, conds))
+    R.floor("send_data! sites under timers.retransmit.expired()", len(rto), 1)
+    for s, conds in rto:
+        restricted = bool(s["adapters"]) or (s["start"] is not None and s["start"] != "None")
+        guarded = any("last_sent_seq_nr" in c or "last_remote_window" in c for c in conds)
+        # a comparison whose operand is last_sent_seq_nr / last_remote_window, however it is spelled (SeqNr compares through PartialOrd calls)
+        for c, truth, desc, *_ in controlling(stq, s["call"].bb):
+            ops = list(c.call.args) if c.kind == "call" and c.call is not None else []
+            o = ordering(c, True)
+            if o is not None:
+                ops += [o[0], o[1]]
+            for op in ops:
+                src = value_sources(stq, op)
+                if ("field", VS.split("::")[-1] + ".last_sent_seq_nr") in src or ("field", VS.split("::")[-1] + ".last_remote_window") in src:
+                    guarded = True
+        if restricted or guarded:
+            R.ok("rto-send=>sent-before-or-fits-window", stq.name, "the timeout path is restricted (%s)" % ", ".join(sorted(c for c in conds if "last_" in c) or s["adapters"] or [str(s["start"])]))
+        else:
+            R.fail([STQ, "rto-send", "first-undelivered-segment", "not-restricted-to(sent-before|peer-window)"],
+                   "the retransmission-timeout path sends the first undelivered segment whether or not it was ever transmitted and without looking at last_remote_window: a segment that was queued but held back "
+                   "goes out for the first time after the peer advertised a zero window", where=s["call"].where(), instance="rto-send=>sent-before-or-fits-window")
